@@ -188,6 +188,103 @@ Theorem C11_state_is_C07 : forall (T : Type) (TO : tracker_ops T) F tw ops (b : 
 Proof. exact (@run_proj). Qed.
 Print Assumptions C11_state_is_C07.
 
+(** --- multi-line templates ------------------------------------------------------------------ *)
+(** [format_state] transcribes the loop of ProgressStyle::format_state on its three locals
+    (cur, buf, wide) for templates WITH NewLine parts; on a template without NewLine parts it is
+    the single-line definition every theorem above was first stated for. *)
+Theorem C11_single_line_agrees : forall (T : Type) (TO : tracker_ops T) F (sty : style T) s tw,
+  single_line (template sty) ->
+  format_state TO F sty s tw = format_state_single TO F sty s tw.
+Proof. exact (@format_state_single_line). Qed.
+Print Assumptions C11_single_line_agrees.
+
+(** the scratch buffer: whatever [buf] holds when a part of the template is reached - e.g. the
+    padded message WideElement::Message::expand leaves in it at the end of a {wide_msg} line -
+    the lines produced are the same (the buffer is cleared before every use) *)
+Theorem C11_scratch_buffer_never_leaks : forall (T : Type) (TO : tracker_ops T) F (sty : style T)
+                                                s tw ps cur buf buf' wd,
+  m_format TO F sty s tw ps cur buf wd = m_format TO F sty s tw ps cur buf' wd.
+Proof. exact (@m_format_buf_irrelevant). Qed.
+Print Assumptions C11_scratch_buffer_never_leaks.
+
+(** the template lines: none contains a NewLine part, and joined by NewLine parts they are the
+    template *)
+Theorem C11_template_lines : forall ps,
+  Forall single_line (split_lines ps) /\ unsplit (split_lines ps) = ps.
+Proof. exact template_lines. Qed.
+Print Assumptions C11_template_lines.
+
+(** THE multi-line theorem.  For every template, snapshot and width: the frame is the
+    concatenation, line by line, of the frames of the template lines, each rendered as a
+    single-line template OF ITS OWN from the same snapshot - placeholders, widths, custom keys and
+    a wide element of its own on any line.  (A line followed by a NewLine gives one empty row
+    when it is empty; empty text after the last NewLine gives no row.)  So nothing computed for
+    one line - position in [cur], scratch buffer, ... - reaches another line.  The hypothesis
+    [line_ok] (a line WITHOUT a wide key of its own has no NUL character in its text) is needed:
+    see C11_wide_element_carried_witness. *)
+Theorem C11_multiline_frame : forall (T : Type) (TO : tracker_ops T) F tw (sty : style T) s,
+  Forall (line_ok TO F sty s) (split_lines (template sty)) ->
+  format_state TO F sty s tw
+  = join_lines (map (line_alone TO F tw sty s) (split_lines (template sty))).
+Proof. exact (@format_state_lines). Qed.
+Print Assumptions C11_multiline_frame.
+
+(** without [line_ok] the statement is false, in the model and (corpus:nul-carry) in the
+    implementation: the wide element of an earlier line is still set on the later lines and
+    replaces a NUL that is part of a later line's text *)
+Theorem C11_wide_element_carried_witness :
+  exists (sty : style htracker) (s : snapshot) (tw : N),
+    format_state htracker_ops (table_formatters []) sty s tw
+    <> join_lines (map (line_alone htracker_ops (table_formatters []) tw sty s)
+                       (split_lines (template sty))).
+Proof. exact wide_carry_exists. Qed.
+Print Assumptions C11_wide_element_carried_witness.
+
+(** THE property for multi-line templates of literals and documented, non-wide, non-shadowed
+    keys (no hypothesis on the content): every line of every frame of every history is the
+    concatenation of the documented values of the state the call leaves behind - all lines from
+    that one state and the clock readings of that one call *)
+Theorem C11_frame_documented_lines : forall (T : Type) (TO : tracker_ops T) F tw (b : bstate T) o e lines,
+  snd (bstep TO F tw b (o, e)) = Some lines ->
+  let b' := fst (bstep TO F tw b (o, e)) in
+  b_status b' <> DoneHidden ->
+  Forall (doc_part_ml (b_style b')) (template (b_style b')) ->
+  lines = join_lines (map (doc_line F (b_style b') (snapshot_of b' (e_obs e)))
+                          (split_lines (template (b_style b')))).
+Proof. exact (@frame_documented_lines). Qed.
+Print Assumptions C11_frame_documented_lines.
+
+(** a wide key anywhere in a line (by C11_multiline_frame: in any line of a template), between
+    parts that set no wide element and whose text has no NUL: the message truncated / padded to
+    exactly the columns the rest of the line leaves free (trimmed when nothing follows it), resp.
+    a bar of exactly that many columns, sits where the placeholder is *)
+Theorem C11_wide_msg_line : forall (T : Type) (TO : tracker_ops T) F tw (sty : style T) s pre post,
+  lookup "wide_msg" (customs sty) = None ->
+  template sty = (pre ++ PKey "wide_msg" None :: post)%list ->
+  Forall (part_narrow TO F sty s) pre ->
+  Forall (part_narrow TO F sty s) post ->
+  let a := concat (map (part_text TO F sty s) pre) in
+  let b := concat (map (part_text TO F sty s) post) in
+  ~ In 0 a -> ~ In 0 b ->
+  let m := pad_left_trunc (s_message s) (tw - text_width (a ++ b)%list) in
+  format_state TO F sty s tw
+  = split_nl (a ++ (match b with [] => trim_end m | _ => m end) ++ b)%list [].
+Proof. exact (@wide_msg_line). Qed.
+Print Assumptions C11_wide_msg_line.
+
+Theorem C11_wide_bar_line : forall (T : Type) (TO : tracker_ops T) F tw (sty : style T) s pre post,
+  lookup "wide_bar" (customs sty) = None ->
+  template sty = (pre ++ PKey "wide_bar" None :: post)%list ->
+  Forall (part_narrow TO F sty s) pre ->
+  Forall (part_narrow TO F sty s) post ->
+  let a := concat (map (part_text TO F sty s) pre) in
+  let b := concat (map (part_text TO F sty s) post) in
+  ~ In 0 a -> ~ In 0 b ->
+  format_state TO F sty s tw
+  = split_nl (a ++ f_bar F (o_fraction (s_obs s)) (tw - text_width (a ++ b)%list) ++ b)%list [].
+Proof. exact (@wide_bar_line). Qed.
+Print Assumptions C11_wide_bar_line.
+
 (** --- non-vacuity -------------------------------------------------------------------------- *)
 (** a concrete run of the executable instance: length 10, template "{pos}/{len} {spinner} {lg}",
     inc(3) admitted at t=5, finish; the logger saw one tick with the post-state (3, Some 10) *)
@@ -225,3 +322,48 @@ Example C11_nonvacuous_missing_len :
   = [49; 56; 52; 52; 54; 55; 52; 52; 48; 55; 51; 55; 48; 57; 53; 53; 49; 54; 49; 53]
   /\ fst (key_value (table_formatters []) [[97]; [98]; [99]] s "spinner" None) = [98].
 Proof. split; vm_compute; reflexivity. Qed.
+
+(** a multi-line template with a wide message on a non-final line and placeholders after it (the
+    witness of seeded defect C10-2: "{prefix}: {wide_msg}\n[{pos}/{len}] {percent}%", 40 columns,
+    prefix "job", message "hello", 3/10): the frame, its lines on their own, and the hypothesis
+    of C11_multiline_frame *)
+Example C11_nonvacuous_multiline :
+  let F := table_formatters [(8, 1050253722, 0, [51; 48])] in          (* {:.0} of 0.3f32*100 = "30" *)
+  let sty : style htracker :=
+    {| tick_strings := [[97]; [98]]; sty_tab := 8; customs := [];
+       template := [PKey "prefix" None; PLit [58; 32]; PKey "wide_msg" None; PNewLine;
+                    PLit [91]; PKey "pos" None; PLit [47]; PKey "len" None; PLit [93; 32];
+                    PKey "percent" None; PLit [37]] |} in
+  let s := {| s_pos := 3; s_len := Some 10; s_tick := 1; s_finished := false;
+              s_message := [104; 101; 108; 108; 111]; s_prefix := [106; 111; 98];
+              s_obs := {| o_fraction := 1050253722; o_elapsed := 0; o_eta := 0; o_duration := 0;
+                          o_per_sec := 0 |} |} in
+  format_state htracker_ops F sty s 40
+  = [[106; 111; 98; 58; 32; 104; 101; 108; 108; 111];                   (* "job: hello" *)
+     [91; 51; 47; 49; 48; 93; 32; 51; 48; 37]]                          (* "[3/10] 30%" *)
+  /\ map (line_alone htracker_ops F 40 sty s) (split_lines (template sty))
+     = [[[106; 111; 98; 58; 32; 104; 101; 108; 108; 111]]; [[91; 51; 47; 49; 48; 93; 32; 51; 48; 37]]]
+  /\ Forall (line_ok htracker_ops F sty s) (split_lines (template sty))
+  /\ single_line (template (with_template sty [PLit [91]; PKey "pos" None])).
+Proof.
+  split; [vm_compute; reflexivity |]. split; [vm_compute; reflexivity |]. split.
+  - repeat (apply Forall_cons; [ unfold line_ok; vm_compute; intros H; first [ discriminate H | intuition discriminate ] | ]).
+    apply Forall_nil.
+  - repeat constructor; discriminate.
+Qed.
+
+(** empty lines: "a\n\nb\n" draws "a", an empty row, "b" and no fourth row *)
+Example C11_nonvacuous_empty_lines :
+  let sty : style htracker :=
+    {| tick_strings := [[97]; [98]]; sty_tab := 8; customs := [];
+       template := [PLit [97]; PNewLine; PNewLine; PLit [98]; PNewLine] |} in
+  let s := {| s_pos := 0; s_len := None; s_tick := 0; s_finished := false;
+              s_message := []; s_prefix := [];
+              s_obs := {| o_fraction := 0; o_elapsed := 0; o_eta := 0; o_duration := 0; o_per_sec := 0 |} |} in
+  format_state htracker_ops (table_formatters []) sty s 80 = [[97]; []; [98]]
+  /\ split_lines (template sty) = [[PLit [97]]; []; [PLit [98]]; []]
+  /\ Forall (doc_part_ml sty) (template sty).
+Proof.
+  split; [vm_compute; reflexivity |]. split; [reflexivity |].
+  repeat (apply Forall_cons; [exact I |]). apply Forall_nil.
+Qed.
